@@ -76,7 +76,7 @@ def dispatch(c):
 
 def families(tier, seed):
     out = []
-    n, depth = (60, 4) if tier == "quick" else (400, 6)
+    n, depth = (60, 4) if tier == "quick" else (700, 6)
     models = gen.c05_models(seed, n, depth) + gen.c05_models(seed + 1, n // 3, 2)
     rng = random.Random(seed)
     for tag, feats, model in models:
